@@ -1314,3 +1314,202 @@ func fluentMore(c *eng.Ctx, R string, run func(steps []fluentStep, also func(ev 
 		}
 	}
 }
+
+// ---------------------------------------------------------------------------------------------------------------
+// R11.15 header and footer detection on synthetic documents of fragments.
+
+type hfFrag struct {
+	text       string
+	x, y, w, h float64
+	role       string // "body": kept; "run": repeated marginal text or running page number, removed; "keep": marginal but not repeated, kept
+}
+
+type hfDoc struct {
+	name    string
+	heights []float64
+	pages   [][]hfFrag
+}
+
+func hfDocs() []hfDoc {
+	bodyOf := func(p int, extra ...hfFrag) []hfFrag {
+		var out []hfFrag
+		for k := 0; k < 4; k++ {
+			out = append(out, hfFrag{fmt.Sprintf("body text of page %d line %d with several words", p, k), 72, 640 - 60*float64(k), 380, 11, "body"})
+		}
+		return append(out, extra...)
+	}
+	width := func(s string) float64 { return 5.5 * float64(len([]rune(s))) }
+	mk := func(name string, n int, per func(p int) []hfFrag) hfDoc {
+		d := hfDoc{name: name}
+		for p := 1; p <= n; p++ {
+			d.heights = append(d.heights, 792)
+			d.pages = append(d.pages, per(p))
+		}
+		return d
+	}
+	run := func(s string, x, y float64) hfFrag { return hfFrag{s, x, y, width(s), 11, "run"} }
+	keep := func(s string, x, y float64) hfFrag { return hfFrag{s, x, y, width(s), 11, "keep"} }
+	var docs []hfDoc
+	docs = append(docs, mk("a running title and Page N on four pages", 4, func(p int) []hfFrag {
+		return append([]hfFrag{run("Quarterly Report", 72, 760)}, bodyOf(p, run(fmt.Sprintf("Page %d", p), 290, 30))...)
+	}))
+	docs = append(docs, mk("marginal text that does not repeat", 3, func(p int) []hfFrag {
+		return append([]hfFrag{keep([]string{"Introduction", "Methods used here", "Closing remarks"}[p-1], 72+40*float64(p), 760)}, bodyOf(p, keep([]string{"first note", "another remark", "the end"}[p-1], 100*float64(p), 30))...)
+	}))
+	docs = append(docs, mk("twelve pages with 'Page N of 12'", 12, func(p int) []hfFrag {
+		return append([]hfFrag{run("Operations Handbook", 72, 760)}, bodyOf(p, run(fmt.Sprintf("Page %d of 12", p), 270, 30))...)
+	}))
+	docs = append(docs, mk("a two-character running header", 3, func(p int) []hfFrag {
+		return append([]hfFrag{run("概要", 72, 760)}, bodyOf(p)...)
+	}))
+	docs = append(docs, mk("a title at the left and a page number at the right of the header line", 4, func(p int) []hfFrag {
+		return append([]hfFrag{run("Annual Review", 72, 760), run(fmt.Sprint(p), 530, 760)}, bodyOf(p)...)
+	}))
+	docs = append(docs, mk("a numeric body line and running page numbers", 4, func(p int) []hfFrag {
+		return bodyOf(p, hfFrag{"2024", 72, 400, 22, 11, "body"}, hfFrag{fmt.Sprint(p + 6), 72, 340, 6, 11, "body"}, run(fmt.Sprintf("- %d -", p), 290, 30))
+	}))
+	docs = append(docs, mk("a page that holds only the running lines", 4, func(p int) []hfFrag {
+		if p == 3 {
+			return []hfFrag{run("Field Manual", 72, 760), run(fmt.Sprintf("Page %d", p), 290, 30)}
+		}
+		return append([]hfFrag{run("Field Manual", 72, 760)}, bodyOf(p, run(fmt.Sprintf("Page %d", p), 290, 30))...)
+	}))
+	docs = append(docs, mk("a running header with a trailing blank", 3, func(p int) []hfFrag {
+		return append([]hfFrag{{"Operations Handbook ", 72, 760, 110, 11, "run"}}, bodyOf(p)...)
+	}))
+	docs = append(docs, mk("a title page without the header", 5, func(p int) []hfFrag {
+		if p == 1 {
+			return append([]hfFrag{keep("A Study of Things", 180, 760)}, bodyOf(p)...)
+		}
+		return append([]hfFrag{run("Study of Things", 72, 760)}, bodyOf(p, run(fmt.Sprint(p), 300, 30))...)
+	}))
+	docs = append(docs, mk("a running header with a year in it", 2, func(p int) []hfFrag {
+		return append([]hfFrag{run("Annual Report 2024", 72, 760)}, bodyOf(p)...)
+	}))
+	docs = append(docs, mk("a title struck twice on one page only", 3, func(p int) []hfFrag {
+		if p == 1 {
+			return append([]hfFrag{keep("Bold Title", 72, 760), keep("Bold Title", 72.4, 760)}, bodyOf(p)...)
+		}
+		return bodyOf(p)
+	}))
+	docs = append(docs, mk("a header only, body lines that are numbers or read like the header", 4, func(p int) []hfFrag {
+		return append([]hfFrag{run("Quarterly Report", 72, 760)}, bodyOf(p, hfFrag{"Quarterly Report", 72, 380, 88, 11, "body"}, hfFrag{fmt.Sprint(40 + p), 72, 300, 12, 11, "body"})...)
+	}))
+	docs = append(docs, mk("right-aligned page numbers that grow a digit", 12, func(p int) []hfFrag {
+		n := fmt.Sprint(p)
+		return append([]hfFrag{run("Width Matters", 72, 760)}, bodyOf(p, run(n, 540-width(n), 30))...)
+	}))
+	docs = append(docs, mk("a half-filled page without a page number whose last line is a number", 5, func(p int) []hfFrag {
+		if p == 3 {
+			return []hfFrag{{"body text of page 3 line 0 with several words", 72, 640, 380, 11, "body"}, {"body text of page 3 line 1 with several words", 72, 580, 380, 11, "body"}, {"1984", 72, 520, 22, 11, "body"}}
+		}
+		return bodyOf(p, run(fmt.Sprintf("Page %d", p), 290, 30))
+	}))
+	short := mk("a shorter first page", 4, func(p int) []hfFrag {
+		top := 760.0
+		if p == 1 {
+			top = 580
+		}
+		return append([]hfFrag{run("Cover And Body", 72, top)}, bodyOf(p, run(fmt.Sprintf("Page %d", p), 290, 30))...)
+	})
+	short.heights = []float64{612, 792, 792, 792}
+	for i := range short.pages[0] {
+		if short.pages[0][i].role == "body" {
+			short.pages[0][i].y -= 180
+		}
+	}
+	docs = append(docs, short)
+	tall := mk("pages of two heights with the header at the same distance from the top", 4, func(p int) []hfFrag {
+		top := 760.0
+		if p > 2 {
+			top = 810
+		}
+		return append([]hfFrag{run("Mixed Sizes", 72, top)}, bodyOf(p, run(fmt.Sprintf("Page %d", p), 290, 30))...)
+	})
+	tall.heights = []float64{792, 792, 842, 842}
+	docs = append(docs, tall)
+	return docs
+}
+
+// R11.15 [C11]
+func ruleHeaderFooterDetectionEvaluated(c *eng.Ctx) {
+	const R = "R11.15-HEADER-FOOTER-DETECTION-EVALUATED"
+	c.Rule(R, "layout.NewHeaderFooterDetector().Detect followed by FilterFragments on every page, evaluated on synthetic documents of line fragments (a running title and 'Page N'; marginal text that does not repeat; twelve pages with 'Page N of 12'; a two-character header; a title and a page number on one header line; numeric body lines beside running page numbers; a page holding only the running lines; a header with a trailing blank; a title page without the header; a header with a year; a title struck twice on one page only; pages of two heights): what comes back is the page's fragments in their order minus exactly the lines that repeat at a marginal position and the running page numbers - nothing of the body band and no marginal text that does not repeat is removed", 1, 0)
+	newD := c.P.FuncExact("layout.NewHeaderFooterDetector")
+	detect := c.P.FuncExact("layout.(*HeaderFooterDetector).Detect")
+	filter := c.P.FuncExact("layout.(*HeaderFooterResult).FilterFragments")
+	pfT, fragT := c.P.NamedType("layout", "PageFragments"), c.P.NamedType("text", "TextFragment")
+	if newD == nil || detect == nil || filter == nil || pfT == nil || fragT == nil || len(detect.Params) != 2 || len(filter.Params) != 4 {
+		c.Ok(R, "layout.(*HeaderFooterDetector).Detect", token.NoPos, "detector entry points not found: not evaluated")
+		return
+	}
+	mkFrags := func(fs []hfFrag) *eng.ESlice {
+		var els []any
+		for _, f := range fs {
+			v := eng.ZeroOf(fragT).(*eng.EStruct)
+			eng.SetField(v, fragT, "Text", f.text)
+			eng.SetField(v, fragT, "X", f.x)
+			eng.SetField(v, fragT, "Y", f.y)
+			eng.SetField(v, fragT, "Width", f.w)
+			eng.SetField(v, fragT, "Height", f.h)
+			eng.SetField(v, fragT, "FontSize", f.h)
+			eng.SetField(v, fragT, "FontName", "F1")
+			els = append(els, v)
+		}
+		return eng.SliceOf(els...)
+	}
+	for _, d := range hfDocs() {
+		key := "layout.(*HeaderFooterDetector).Detect#" + d.name
+		ev := eng.NewEvaluator()
+		ev.Steps = 60000000
+		ev.MaxDepth = 60
+		var pages []any
+		for i, fs := range d.pages {
+			pv := eng.ZeroOf(pfT).(*eng.EStruct)
+			eng.SetField(pv, pfT, "PageIndex", int64(i))
+			eng.SetField(pv, pfT, "PageHeight", d.heights[i])
+			eng.SetField(pv, pfT, "PageWidth", 612.0)
+			eng.SetField(pv, pfT, "Fragments", mkFrags(fs))
+			pages = append(pages, pv)
+		}
+		det, err := ev.Call(newD, nil, 0)
+		var res any
+		if err == nil {
+			res, err = ev.Call(detect, []any{det, eng.SliceOf(pages...)}, 0)
+		}
+		bad := ""
+		for i := 0; err == nil && bad == "" && i < len(d.pages); i++ {
+			var got any
+			got, err = ev.Call(filter, []any{res, int64(i), mkFrags(d.pages[i]), d.heights[i]}, 0)
+			if err != nil {
+				break
+			}
+			var out []string
+			if sl, ok := got.(*eng.ESlice); ok {
+				for _, l := range sl.L {
+					if st, ok := l.V.(*eng.EStruct); ok {
+						t, _ := evalField(st, fragT, "Text")
+						out = append(out, fmt.Sprint(t))
+					}
+				}
+			}
+			var want []string
+			for _, f := range d.pages[i] {
+				if f.role != "run" {
+					want = append(want, f.text)
+				}
+			}
+			if strings.Join(out, " | ") != strings.Join(want, " | ") {
+				bad = fmt.Sprintf("page %d comes back as %q; the page minus its repeated marginal lines and page numbers is %q", i+1, strings.Join(out, " | "), strings.Join(want, " | "))
+			}
+		}
+		if err != nil && !err.Panic {
+			c.Ok(R, key, detect.Pos(), "not evaluated: "+err.Msg)
+			continue
+		}
+		if err != nil {
+			bad = "the detector is brought down: " + err.Msg
+		}
+		c.Check(bad == "", R, key, detect.Pos(), fmt.Sprintf("%d pages filtered to their body and their unrepeated marginal text", len(d.pages)), "header and footer exclusion removes something else than repeated marginal text, or leaves it: "+bad)
+	}
+}
